@@ -25,19 +25,19 @@ CHECKS = {
     },
     "C09": {
         "technique": "TLA+ spec (Design.tla: UsedVars / Incomplete rows / policies) model checked with TLC; TLC-generated frames with missing cells replayed under the three policies; recorded builds on random frames with missing values judged by TLC, which computes the incomplete rows itself",
-        "text": "TLC proves on the small scope that drop equals the build on the pre-dropped frame, error refuses iff an incomplete row exists, pass keeps all rows with complete rows as under drop, and that missing values in unused columns change nothing; every case is replayed into design_matrices. Random worlds with 5-30% missing cells in used and unused columns (variables inside calls, C(), group terms, the response) are built under the three policies; TLC recomputes the incomplete rows from the used variables and judges the recorded matrices against the frame with exactly those rows removed, the refusal, and the NaN pattern.",
+        "text": "TLC proves on the small scope that drop equals the build on the pre-dropped frame, error refuses iff an incomplete row exists, pass keeps all rows with complete rows as under drop, and that missing values in unused columns change nothing; every case is replayed into design_matrices. Random worlds with 5-30% missing cells in used and unused columns (variables inside calls, C(), group terms, the response) are built under the three policies; the default policy is left out every other time; unknown policies (incl. near misses of the three spellings) must be refused on complete data; TLC recomputes the incomplete rows from the used variables and judges the recorded matrices against the frame with exactly those rows removed, the refusal, and the NaN pattern.",
         "ref": "DESIGN.md §3.7, §4 C09",
         "note": "Trusted: as C04. Categorical NA under 'pass' is outside the domain. The used variables of a generated formula are the ones the generator wrote into its text.",
     },
     "C15": {
         "technique": "TLA+ spec (Design.tla response meaning; Design_Trace judge with build / rows / refuse events) checked with TLC; small-scope cases replayed; recorded response forms judged by TLC",
-        "text": "Small-scope S->C incl. a categorical response; recorded builds with numeric / str / Categorical / ordered / call responses judged cell by cell; a factor-valued response has its indicator columns in level order (sorted, numeric for integer classes, or as declared); subset notation y[ident], y['quoted'], y[\"quoted\"] must be 1 exactly where y equals the level, also for a level that never occurs, is a declared but unobserved category, or occurs only on dropped rows (an all-zero column); prop/p/proportion with column or constant trials must give successes and trials and refuse invalid data; predictors must be identical under a different response (rows relation judged by TLC); multi-term responses must be refused; no response => no response matrix; CallKinds_MC: every type of value a callee may return, used as the response (factor-valued results give one indicator per level in sorted / declared / given order, prop only as response, offset refused); missing values in columns the formula does not use must not cost the response a row (response part judged alone).",
+        "text": "Small-scope S->C incl. a categorical response; recorded builds with numeric / str / Categorical / ordered / call responses judged cell by cell; a factor-valued response has its indicator columns in level order (sorted, numeric for integer classes, or as declared); subset notation y[ident], y['quoted'], y[\"quoted\"] must be 1 exactly where y equals the level, also for a level that never occurs, is a declared but unobserved category, or occurs only on dropped rows (an all-zero column); prop/p/proportion with column or constant trials must give successes and trials and refuse invalid data; predictors must be identical under a different response (rows relation judged by TLC); multi-term responses (also two subsets of one variable) must be refused; no response => no response matrix; CallKinds_MC: every type of value a callee may return, used as the response (factor-valued results give one indicator per level in sorted / declared / given order, prop only as response, offset refused); missing values in columns the formula does not use must not cost the response a row (response part judged alone).",
         "ref": "DESIGN.md §3.7, §4 C15",
         "note": "Trusted: as C04; the label of a subset-notation response is taken from the formula text.",
     },
     "C17": {
         "technique": "TLA+ container invariants (Design_MC ShapeOK; Design_Trace build and object clauses) checked by TLC on every matrix object of small-scope replays, random builds and evaluate_new_data chains",
-        "text": "Every matrix object produced by the small-scope replays, by random builds and by chains of evaluate_new_data (subsets, unseen groups in silent mode) is recorded, and the containers of a design are recorded again after another design was built from the same formula text on other data; TLC checks that slices are contiguous from 0 in term order and cover all columns and that rows = retained observations; the harness-computed view agreement ([name] = slice, unknown name refused, as_dataframe / asarray / unpacking agree, unique column names, str()/repr() succeed and show the shape) is part of each event.",
+        "text": "Every matrix object produced by the small-scope replays, by random builds and by chains of evaluate_new_data (subsets, unseen groups in silent mode) is recorded, and the containers of a design are recorded again after another design was built from the same formula text on other data; an exception anywhere in a silent-mode chain is a violation; TLC checks that slices are contiguous from 0 in term order and cover all columns and that rows = retained observations; the harness-computed view agreement ([name] = slice, unknown name refused, as_dataframe / asarray / unpacking agree, unique column names, str()/repr() succeed and show the shape) is part of each event.",
         "ref": "DESIGN.md §4 C17",
         "note": "Trusted: fv/drivers/c17_objects.py:object_event and fv/gen.py:matrix_event compute the view-agreement booleans.",
     },
@@ -55,13 +55,13 @@ CHECKS = {
     },
     "C07": {
         "technique": "TLA+ spec of API-call histories (Lifecycle.tla: designs own cells, operations have write sets) model checked with TLC over all histories up to a bound; every TLC-generated history and random longer ones are run against the real code with per-call cell fingerprints and fresh-process references; each recorded call judged by TLC (Lifecycle_Trace)",
-        "text": "TLC explores every history of build / evaluate-common / evaluate-group / set-config (3 formulas x 2 training frames x new frames with and without unseen levels x 3 modes + an undocumented value) up to length 3 (quick, 1.4k maximal histories) / 4 (thorough) and proves Frozen, HistoryIndependent and ConfigDiscipline from the write sets; each maximal history is replayed: after every call all cells reachable from every live design, every earlier result, the caller's frames and namespace and the config are re-fingerprinted (writes outside the write set are violations) and the outcome is compared with the same single operation in a process forked from a pristine template (a newly started interpreter that has imported formulae and never run it). Random histories of up to 25 calls with up to 4 live designs add prints and model_description calls.",
+        "text": "TLC explores every history of build / evaluate-common / evaluate-group / set-config (3 formulas x 2 training frames x new frames with and without unseen levels x 3 modes + an undocumented value) up to length 3 (quick, 1.4k maximal histories) / 4 (thorough) and proves Frozen, HistoryIndependent and ConfigDiscipline from the write sets; each maximal history is replayed: after every call all cells reachable from every live design, every earlier result, the caller's frames and namespace and the config are re-fingerprinted (writes outside the write set are violations) and the outcome is compared with the same single operation in a process forked from a pristine template (a newly started interpreter that has imported formulae and never run it). Random histories of up to 25 calls with up to 4 live designs over nine formulas (incl. a user-defined stateful transform, numeric levels stored as int / float, a remembered success level 0, an encoding object from the caller's namespace shared by two formulas) add prints, registrations and model_description calls.",
         "ref": "DESIGN.md §3.8, §4 C07",
         "note": "Trusted: fv/cells.py (object-graph walk), fv/fresh.py (fork server), TLC. Outcomes are compared as digests of matrices rounded to 1e-10.",
     },
     "C10": {
         "technique": "TLA+ spec (Design.tla: levels frozen at training, zero rule, trailing group block, factor list; Lifecycle config discipline) model checked with TLC (UnseenTheorem) and replayed; recorded evaluations with unseen levels under mode sequences judged by TLC (Design_Trace unseen clause, Lifecycle_Trace config clause)",
-        "text": "TLC enumerates rows of every small-scope training frame with cells of the predictor f, the grouping variable g or both replaced by a never-seen level under the three modes, proves the zero rule / block-width rule on the Abs evaluation and exports the expected matrices, slices and factor lists; cases are replayed through evaluate_new_data with the configured mode (warnings matched by formulae's message). Random worlds x formulas with unseen levels placed in predictors, effect and grouping variables (str, ordered categorical, C(k), sum-coded S(h) / C(g, Sum), a numeric grouping variable, interaction factors), up to 3 evaluations per design with mode changes in between (a new frame or the very same frame object again), are judged event by event by TLC. 28 assignments of documented and undocumented keys/values are judged against the config discipline.",
+        "text": "TLC enumerates rows of every small-scope training frame with cells of the predictor f, the grouping variable g or both replaced by a never-seen level under the three modes, proves the zero rule / block-width rule on the Abs evaluation and exports the expected matrices, slices and factor lists; cases are replayed through evaluate_new_data with the configured mode (warnings matched by formulae's message). Random worlds x formulas with unseen levels placed in predictors, effect and grouping variables (str, ordered categorical, C(k), sum-coded S(h) / C(g, Sum), a numeric grouping variable, interaction factors), up to 3 evaluations per design with mode changes in between (a new frame or the very same frame object again), are judged event by event by TLC. 28 assignments of documented and undocumented keys/values are judged against the config discipline; the mode of a fresh process must be 'error'. Unseen levels include values that are false in Python (0, the empty string).",
         "ref": "DESIGN.md §3.7, §3.8, §4 C10",
         "note": "Trusted: as C04. In 'error' mode an unseen level anywhere in the evaluated matrix must raise ValueError. Integer-valued data.",
     },
@@ -79,7 +79,7 @@ CHECKS = {
     },
     "C13": {
         "technique": "TLA+ spec (Coding.tla: validity predicates with exact fraction-free ranks = Abs; index-formula transcription of categorical.py = Impl) model checked with TLC for every size and reference; spec matrices compared with the real Treatment/Sum objects; real matrices judged by TLC; option handling replayed through design_matrices against the spec's matrices; interchangeability through Contrasts.tla + exact ranks",
-        "text": "TLC proves for every n <= 11 (quick) / 13 (thorough) and every reference / omitted level that the transcribed constructions satisfy the validity predicates (indicator columns with zero reference row; zero column sums with the omitted level coded -1; k = n-1; rank n together with the constant; full codings of rank n; labels name the levels) and the real Treatment/Sum outputs must equal the spec's matrices (string and integer level values; an encoding object used for another level list first must behave like a fresh one); the real matrices for n <= 13 are judged by TLC directly. Every permutation of <= 4 (5) levels passed as levels= x every reference x string and integer level values (incl. 0 not in first place, and integers whose text order differs from their numeric order) x 10 spellings with levels= and 7 without (default order = sorted values) of C/T/S (incl. defaults and the T = C(Treatment), S = C(Sum) synonyms) x with/without intercept is built by the real code and compared with the spec's rows and level labels. Swapping codings never changes the column space: C03's exact-rank replay with variable / C / T(ref) / S / C(Sum) atoms, on integer and on quarter-valued numeric columns.",
+        "text": "TLC proves for every n <= 11 (quick) / 13 (thorough) and every reference / omitted level that the transcribed constructions satisfy the validity predicates (indicator columns with zero reference row; zero column sums with the omitted level coded -1; k = n-1; rank n together with the constant; full codings of rank n; labels name the levels) and the real Treatment/Sum outputs must equal the spec's matrices (string and integer level values; an encoding object used for another level list first must behave like a fresh one); the real matrices for n <= 13 are judged by TLC directly. Every permutation of <= 4 (5) levels passed as levels= x every reference x string and integer level values (incl. 0 not in first place, and integers whose text order differs from their numeric order) x 10 spellings with levels= and 7 without (default order = sorted values); levels= that do not cover the data and a reference / omitted level that is no level must be refused of C/T/S (incl. defaults and the T = C(Treatment), S = C(Sum) synonyms) x with/without intercept is built by the real code and compared with the spec's rows and level labels. Swapping codings never changes the column space: C03's exact-rank replay with variable / C / T(ref) / S / C(Sum) atoms, on integer and on quarter-valued numeric columns.",
         "ref": "DESIGN.md §3.6, §4 C13",
         "note": "Trusted: TLC integer arithmetic (32-bit; determinants of 0/±1 matrices up to 13x13 stay far below 2^31), fv/rank.py.",
     },
@@ -97,7 +97,7 @@ CHECKS = {
     },
     "C14": {
         "technique": "TLA+ spec in exact rational arithmetic (Transforms.tla: contracts = Abs; percentile knots, Cox-de Boor recursion, three-term recurrence and the branch table of BSpline._initialize = Impl) model checked with TLC on all small integer inputs; exact values replayed into formulae.transforms at 1e-9; TLC as exact oracle for harness-chosen longer inputs",
-        "text": "TLC proves in exact rationals, for every integer vector of length 3..4 over 0..3 and degree 1..3, that center has mean zero, scale has unit population variance, the poly recurrence gives mutually orthogonal columns orthogonal to the constant; for every non-constant vector of length 4 over 0..2 (quick) / 4..5 over 0..4 (thorough) x 0..2 inner knots x degree 0..3 x intercept x explicit boundary knots 0 or 1 beyond the data on either side that the B-spline basis on percentile knots has the documented number of columns, is non-negative and sums to one (also on later data with remembered knots); and that the branch table of BSpline._initialize equals the documented refusal rules on all 5600 parameter classes. Every case is replayed into the real Center/Scale/Polynomial/BSpline objects (training call, then later data on the same instance; raw=True = powers; explicit knots = df; the same values tiled to 70-190 shuffled rows must reproduce the short rows) and compared with the exact values. center / scale / standardize / poly are also reached by name through a formula (design built on x, then evaluated on the later data) and must give the values of the judged objects; the exact values of center / scale are also demanded of the same data shifted by 1e6 and 1e7. Longer vectors with ties are decided with the spec as oracle.",
+        "text": "TLC proves in exact rationals, for every integer vector of length 3..4 over 0..3 and degree 1..3, that center has mean zero, scale has unit population variance, the poly recurrence gives mutually orthogonal columns orthogonal to the constant; for every non-constant vector of length 4 over 0..2 (quick) / 4..5 over 0..4 (thorough) x 0..2 inner knots x degree 0..3 x intercept x explicit boundary knots 0 or 1 beyond the data on either side that the B-spline basis on percentile knots has the documented number of columns, is non-negative and sums to one (also on later data with remembered knots); and that the branch table of BSpline._initialize equals the documented refusal rules on all 5600 parameter classes (knots outside the boundary knots are replayed for given knots and for percentile knots under an explicit bound inside the data); documented defaults (degree 3, no intercept; poly degree 1) are left out now and then. Every case is replayed into the real Center/Scale/Polynomial/BSpline objects (training call, then later data on the same instance; raw=True = powers; explicit knots = df; the same values tiled to 70-190 shuffled rows must reproduce the short rows) and compared with the exact values. center / scale / standardize / poly are also reached by name through a formula (design built on x, then evaluated on the later data) and must give the values of the judged objects; the exact values of center / scale are also demanded of the same data shifted by 1e6 and 1e7. Longer vectors with ties are decided with the spec as oracle.",
         "ref": "DESIGN.md §3.10, §4 C14, §8",
         "note": "NOT decided by this technique: accuracy of bs / poly under large offsets / ill-conditioning, degree > 3, long vectors (TLC has 32-bit integers and no floats). Irrational outputs (scale, orthonormal poly) are compared through their squares and signs. Open finding KF_C14_knot_at_upper_bound.",
     },
